@@ -864,6 +864,27 @@ func (f *c18Flow) phase2() {
 			zb.do(cfg.P2, "authorisation-failure-clearing-large", vfGET(f.target("/x")))
 		}
 	}
+	// a second login in a browser that still holds a split session: the new (unsplit) save expires the stale parts
+	if f.b != nil {
+		b2 := f.b.clone()
+		hadSplit := false
+		for _, h := range b2.held {
+			hadSplit = hadSplit || h.Kind == "split"
+		}
+		if f.login(b2, f.identity(false), "relogin-over-split") && hadSplit {
+			left := 0
+			for _, h := range b2.held {
+				if h.Kind == "split" {
+					left++
+				}
+			}
+			if left == 0 {
+				f.run.Count("scenario_relogin_expires_stale_parts", 1)
+			} else {
+				f.run.Count("relogin_left_stale_parts", 1) // C10's concern; recorded
+			}
+		}
+	}
 	// sign-out
 	r = f.a.do(p, "sign-out", vfGET(cfg.Prefix+"/sign_out?rd="+vfQueryEscape(f.target("/bye"))))
 	if r.Code == 302 && !f.a.has("session") {
@@ -1007,7 +1028,7 @@ func TestVerif_C18(t *testing.T) {
 	// the monitor must have seen every kind of cookie it guards
 	need := []string{"lines_csrf", "lines_csrf_deletion", "lines_session", "lines_session_deletion", "lines_split", "lines_split_deletion", "lines_ticket", "lines_ticket_deletion",
 		"scenario_refresh_reissue", "scenario_refresh_reissue_large", "scenario_load_error_clearing", "scenario_authorisation_failure_clearing", "scenario_sign_out", "scenario_sign_out_large",
-		"scenario_htpasswd_login", "domain_rule_longest", "domain_rule_fallback", "domain_rule_none", "deletions_matching_held_cookie"}
+		"scenario_htpasswd_login", "scenario_relogin_expires_stale_parts", "domain_rule_longest", "domain_rule_fallback", "domain_rule_none", "deletions_matching_held_cookie"}
 	for _, k := range need {
 		if run.Counter(k) == 0 {
 			fmt.Printf("INCONCLUSIVE property=C18 reason=the monitor saw no event of kind %s\n", k)
